@@ -445,6 +445,12 @@ func main() {
 				{idxbfs.Config{Space: "euclidean", M: 1, Ef: 1, EfC: 1}, []idxbfs.Op{I(3, 5, 1), I(1, 1, 1), I(4, 2, 1), I(2, 5, 1), U(1, 4), U(1, 4)}},
 				{idxbfs.Config{Space: "euclidean", M: 1, Ef: 1, EfC: 1}, []idxbfs.Op{I(4, 2, 1), I(0, 3, 1), I(3, 0, 1), I(1, 3, 1), R(1), U(0, 0), I(1, 2, 0)}},
 				{idxbfs.Config{Space: "euclidean", M: 1, Ef: 2, EfC: 3}, []idxbfs.Op{I(1, 1, 0), I(0, 5, 0), I(4, 0, 1), I(3, 4, 1), U(1, 5), R(1), I(1, 3, 0), I(0, 2, 1)}},
+				// a second shape (the shortest histories that reach it, found by tools/epsearch): the entry point is a
+				// live item BELOW the highest stored level - the removed entry point's upper-level links all pointed
+				// at tombstones, so the hand-over went to a level-0 neighbour while a level-1 item is still stored
+				{idxbfs.Config{Space: "euclidean", M: 1, Ef: 1, EfC: 1}, []idxbfs.Op{I(0, 0, 0), I(1, 0, 1), I(2, 0, 1), I(3, 1, 1), R(2), R(1)}},
+				{idxbfs.Config{Space: "euclidean", M: 1, Ef: 1, EfC: 1}, []idxbfs.Op{I(0, 0, 0), I(1, 0, 1), I(2, 0, 1), I(3, 2, 1), R(2), R(1)}},
+				{idxbfs.Config{Space: "euclidean", M: 1, Ef: 1, EfC: 1}, []idxbfs.Op{I(0, 0, 0), I(1, 0, 1), I(2, 0, 1), I(3, 0, 1), R(3), R(1)}},
 			} {
 				vrt.InactiveMapPolicy = 0
 				w, k, _ := idxbfs.Build(dc.cfg, dc.path)
@@ -465,17 +471,26 @@ func main() {
 						}
 					}
 				}
-				if !stale {
-					res.St.Outcomes["directed: state shape not reached"]++
-				} else {
+				top := 0
+				for _, v := range d.Vertices {
+					if v.Level > top {
+						top = v.Level
+					}
+				}
+				switch {
+				case stale:
 					res.St.Outcomes["directed: live item links a removed object whose id is stored again"]++
+				case !d.EntrypointNil && d.EntrypointLive && !d.EntrypointDel && d.EntrypointLevel < top:
+					res.St.Outcomes["directed: live entry point below the highest stored level"]++
+				default:
+					res.St.Outcomes["directed: state shape not reached"]++
 				}
 				if k, d := roundTrip(dc.cfg, w.Ix, true); k != "" {
 					res.Violations = append(res.Violations, struct {
 						Key, Desc string
 						Path      []idxbfs.Op
 						Cfg       idxbfs.Config
-					}{k + ":stale-link-to-reused-id", d, dc.path, dc.cfg})
+					}{k + ":directed-state-shape", d, dc.path, dc.cfg})
 				}
 			}
 		}
